@@ -56,6 +56,7 @@ def unsafe_class(r):
 def main():
     _, ci = ex.extract_cfgsites()
     _, ui = ex.extract_unsafe()
+    _, wi = ex.extract_wiring()
     o = []
     o.append('''/-
 Reviewed inventories (hand-maintained) that the T1 certificates Cert/C16.lean and Cert/C17.lean compare with the freshly
@@ -100,6 +101,12 @@ inductive UnsafeClass
 
 def expectedUnsafe : List (Nat × UnsafeClass × String) := [''')
     o.append(',\n'.join(f'  ({ex.fnv(r)}, .{unsafe_class(r)}, {ex.lean_str(" | ".join(r)[:200])})' for r in ui['rows']))
+    o.append(''']
+
+/-- vtable slots, the vtable each constructor / conversion installs, and the representation constants that Model/Core.lean,
+Model/Buf.lean and Model/BufMut.lean were written from (reviewed; compared with the extraction by Cert/C01) -/
+def expectedWiring : List (Nat × String) := [''')
+    o.append(',\n'.join(f'  ({ex.fnv(r)}, {ex.lean_str(" | ".join(r))})' for r in wi['rows']))
     o.append(''']
 
 end BytesVerif.Sites
